@@ -250,7 +250,9 @@ def traj_scenario(c, k):
             L += bias_block(b)
         return heredoc(L)
     seg = 0
-    L = ["echo CASE %d" % k, "natoms %d" % nat, "temperature 300", "dt %r" % c["dt"], "prefix c%ds%d" % (k, seg), "new"]
+    L = ["echo CASE %d" % k, "natoms %d" % nat, "temperature 300", "dt %r" % c["dt"], "prefix c%ds%d" % (k, seg)]
+    L += ["samestep 0", "includecv 0"] if c.get("lagged") else ["samestep 1", "includecv 1"]
+    L.append("new")
     if c["it0"]:
         L.append("setstep %d" % c["it0"])
     L += conf() + ["show atomf 0 cv 0 bias 0 energy 0"]
@@ -265,6 +267,9 @@ def traj_scenario(c, k):
                     L.append("pos %d %s %s %s" % (2 * vid + 1, hx(x[0]), hx(x[1]), hx(x[2])))
                 else:
                     L.append("pos %d 0 0 %s" % (2 * vid + 1, hx(x)))
+            if len(ev) > 2 and ev[2]:
+                for vid, f in ev[2].items():
+                    L.append("eforce %d 0 0 %s" % (2 * int(vid) + 1, hx(f)))
             L += ["step", "idump"]
         elif ev[0] == "boundary":
             L += ["runboundary"]
@@ -424,7 +429,7 @@ def sq(a, b):
     return (Fr(a) - Fr(b)) ** 2
 
 
-def forces_energy_oracle(run, c, j, pos, lab, fields, step, replay):
+def forces_energy_oracle(run, c, j, pos, lab, fields, step, replay, efh=None, first_of_segment=False):
     """textbook values of the columns ft_ (the engine's force on the variable), fa_ (sum of the restraint forces)
     and E_ (harmonic energy) where python can compute them: fixed-centre, fixed-k harmonic restraints"""
     live = live_biases(c, j)
@@ -433,13 +438,23 @@ def forces_energy_oracle(run, c, j, pos, lab, fields, step, replay):
         if v["type"] != "z" or v.get("extlag") or v["id"] not in pos:
             continue
         nm = "v%d" % v["id"]
-        if "ft_" + nm in lab and c.get("eforce") and lab.count("ft_" + nm) == 1:
+        if "ft_" + nm in lab and c.get("eforce") and lab.count("ft_" + nm) == 1 and efh is not None:
             got = fields[lab.index("ft_" + nm)]
-            want = float(c["eforce"][v["id"]])
-            run.dist("oracle:total-force")
-            if not close(got, want, OTOL):
-                run.violation("trajfields:total-force", "step %d column ft_%s holds %r, the engine's force on the variable is %r"
-                              % (step, nm, got, want), replay)
+            if not c.get("lagged"):
+                want = float(efh[j][v["id"]])
+                run.dist("oracle:total-force")
+                if not close(got, want, OTOL):
+                    run.violation("trajfields:total-force", "step %d column ft_%s holds %r, the engine's force on the variable is %r"
+                                  % (step, nm, got, want), replay)
+            elif j > 0 and not first_of_segment:
+                # forces delivered one step late (documented for such engines): the line of step t carries the force exerted
+                # at the previous evaluation
+                want = float(efh[j - 1][v["id"]])
+                run.dist("oracle:total-force-lagged")
+                if not close(got, want, OTOL):
+                    run.violation("trajfields:total-force-lagged", "step %d column ft_%s holds %r; with total forces delivered one step "
+                                  "late it is the force exerted at the previous evaluation, %r (the force at this step is %r)"
+                                  % (step, nm, got, want, float(efh[j][v["id"]])), replay)
         mine = [b for b in live if v["id"] in b["vars"]]
         if "fa_" + nm in lab and lab.count("fa_" + nm) == 1 and all(simple(b) for b in mine):
             want = Fr(0)
@@ -527,11 +542,17 @@ def check_traj_case(run, c, k, impl_lines, scratch, model):
             imposed.setdefault(calcs[j]["it"], []).append(j)
         pos = {}
         poshist = []   # per calc index: {vid: value}
+        efh = []       # per calc index: {vid: engine force on the variable}
+        ef = {v["id"]: c["eforce"][v["id"]] for v in c["vars"]} if c.get("eforce") else {}
         for ev in c["events"]:
             if ev[0] == "step":
                 for vid, x in ev[1].items():
                     pos[int(vid)] = x
                 poshist.append(dict(pos))
+                if len(ev) > 2 and ev[2]:
+                    for vid, f in ev[2].items():
+                        ef[int(vid)] = f
+                efh.append(dict(ef))
         lab = None
         seen = {}
         for l in flines:
@@ -545,7 +566,7 @@ def check_traj_case(run, c, k, impl_lines, scratch, model):
                 continue
             j = js[n]
             fixed_centres_oracle(run, c, lab, l[2], l[1], replay)
-            forces_energy_oracle(run, c, j, poshist[j], lab, l[2], l[1], replay)
+            forces_energy_oracle(run, c, j, poshist[j], lab, l[2], l[1], replay, efh, l[1] == s["it_restart"])
             for v in c["vars"]:
                 nm = "v%d" % v["id"]
                 if nm in lab and v["id"] in poshist[j]:
@@ -694,6 +715,13 @@ def gen_traj_case(r, tier):
             else:
                 d[str(v["id"])] = [V.dyadic(r, -4, 4, 3) for _ in range(3)]
         return d
+    _step_append = events.append
+
+    def add_step_forces(e):
+        # a new engine force on every scalar variable at every step
+        if e[0] == "step" and len(e) == 2:
+            e.append({str(v["id"]): r.choice([-1, 1]) * V.dyadic(r, 0.5, 3, 2) for v in vars_ if v["type"] == "z"})
+        return e
     events.append(["step", newpos()])
     cur_b = [b["id"] for b in biases]
     allb = list(biases)
@@ -738,7 +766,17 @@ def gen_traj_case(r, tier):
             continue
         events.append(["step", newpos()])
     eforce = [r.choice([-1, 1]) * V.dyadic(r, 0.5, 3, 2) for _ in vars_]
-    return {"kind": "traj", "freq": freq, "it0": it0, "dt": dt, "vars": vars_, "biases": biases, "events": events, "eforce": eforce}
+    # repeated steps (after a boundary / restart) keep the engine force of the first evaluation
+    prev = None
+    for e in events:
+        if e[0] == "step":
+            if prev is not None and e[1] is prev[1]:
+                e.append(prev[2])
+            else:
+                add_step_forces(e)
+            prev = e
+    return {"kind": "traj", "freq": freq, "it0": it0, "dt": dt, "vars": vars_, "biases": biases, "events": events, "eforce": eforce,
+            "lagged": r.random() < 0.3}
 
 
 # ------------------------------------------------------------------ running average cases
